@@ -170,10 +170,14 @@ pub fn install_dual_role() -> OpSet {
     ops.infix.insert("!".into(), InfixInfo { prec: 105, left: true, setter: false });
     expression_engine::register_infix_op("++", 115, InfixOpType::CALC, InfixOpAssociativity::LEFT, Arc::new(|a, _| Ok(a)));
     ops.infix.insert("++".into(), InfixInfo { prec: 115, left: true, setter: false });
+    // (not a dual role, but it lives in the same fresh process: an operator whose name is one
+    // multi-byte character)
+    expression_engine::register_infix_op("\u{2264}", 60, InfixOpType::CALC, InfixOpAssociativity::LEFT, Arc::new(|a, _| Ok(a)));
+    ops.infix.insert("\u{2264}".into(), InfixInfo { prec: 60, left: true, setter: false });
     ops
 }
 
-pub const DUAL_TOKENS: &[&str] = &["1", "x", "%", "*", "!", "++", "(", ")", "+", "-"];
+pub const DUAL_TOKENS: &[&str] = &["1", "x", "%", "*", "!", "++", "(", ")", "+", "-", "[", "]"];
 
 pub fn programs(tier: Tier) -> Vec<Ast> {
     program_trees(tier.pick(0, 1))
@@ -222,6 +226,13 @@ impl Prop for C02 {
                     chunk: 40,
                     timeout: Duration::from_secs(600),
                     what: "19 chain / nesting shapes at sizes around 16, 32, 64, 128, 256, 512, 1024: the engine's AST must equal the reference parser's".into(),
+                },
+                Stage {
+                    name: "multibyte-prefix".into(),
+                    len: n,
+                    chunk: (n / 20).max(500),
+                    timeout: Duration::from_secs(900),
+                    what: "every third program of the tree set as the second statement after a string literal that carries k = 1, 2, 3, 5, 8 more bytes than characters (whatever indexes the text by characters where it should use bytes, or the reverse, is off by k behind it)".into(),
                 },
             ],
             rule: format!(
@@ -288,6 +299,26 @@ impl Prop for C02 {
             out.count("transitions", seqs.len());
             return;
         }
+        if stage == 5 {
+            let progs = programs(tier);
+            for i in a..b {
+                out.at(i);
+                if i % 3 != 0 {
+                    continue;
+                }
+                let t = &progs[i as usize];
+                let text = parse::print(t, &ops, Parens::Minimal);
+                for prefix in ["\u{e9}", "\u{20ac}", "\u{1f600}", "\u{20ac}\u{1f600}", "\u{20ac}\u{20ac}\u{20ac}\u{20ac}"] {
+                    let full = format!("'{}' ; {}", prefix, text);
+                    if let Ok(want) = parse::parse(&full, &ops) {
+                        compare(&full, &want, &ops, "multibyte-prefix", out);
+                    }
+                }
+            }
+            out.count("states", b - a);
+            out.count("transitions", b - a);
+            return;
+        }
         if stage == 4 {
             let cases = super::c03::deep_cases();
             for i in a..b {
@@ -352,6 +383,10 @@ impl Prop for C02 {
         }
         if stage == 4 {
             return super::c03::deep_cases()[i as usize].key.clone();
+        }
+        if stage == 5 {
+            let ops = OpSet::builtin();
+            return show(&parse::print(&programs(tier)[i as usize], &ops, Parens::Minimal));
         }
         if stage == 2 {
             let hs = super::c12::rereg_histories();
